@@ -32,6 +32,33 @@ Proof. intros; unfold Zcmp; dif; lia. Qed.
 Lemma Zcmp_FT : forall a b c, FT Zcmp a b c.
 Proof. intros; unfold FT; rewrite ?Zcmp_lt, ?Zcmp_eq; lia. Qed.
 
+(* ---------- integer-level lexicographic combination ---------- *)
+Definition FTz (xy yz xz : Z) : Prop :=
+  (xy = -1 -> yz = -1 -> xz = -1) /\ (xy = 0 -> yz = 0 -> xz = 0) /\
+  (xy = 0 -> yz = -1 -> xz = -1) /\ (xy = -1 -> yz = 0 -> xz = -1).
+Definition lexZ (t u : Z) : Z := if t =? 0 then u else t.
+
+Lemma FT_FTz : forall {A} (c : A -> A -> Z) x y z, FT c x y z = FTz (c x y) (c y z) (c x z).
+Proof. reflexivity. Qed.
+
+Lemma FTz_lex : forall t1 t2 t3 u1 u2 u3,
+  in_range t1 -> in_range t2 -> in_range t3 -> FTz t1 t2 t3 -> FTz u1 u2 u3 ->
+  FTz (lexZ t1 u1) (lexZ t2 u2) (lexZ t3 u3).
+Proof.
+  unfold in_range, FTz, lexZ. intros t1 t2 t3 u1 u2 u3 R1 R2 R3 [T1 [T2 [T3 T4]]] [U1 [U2 [U3 U4]]].
+  destruct R1 as [-> | [-> | ->]]; destruct R2 as [-> | [-> | ->]]; destruct R3 as [-> | [-> | ->]];
+    cbn [Z.eqb Pos.eqb]; repeat split; intros A B; try discriminate; try reflexivity; auto;
+    exfalso; try (discriminate (T1 eq_refl eq_refl)); try (discriminate (T2 eq_refl eq_refl));
+    try (discriminate (T3 eq_refl eq_refl)); try (discriminate (T4 eq_refl eq_refl)).
+Qed.
+Lemma lexZ_range : forall t u, in_range t -> in_range u -> in_range (lexZ t u).
+Proof. unfold lexZ. intros. destruct (t =? 0); assumption. Qed.
+Lemma lexZ_antisym : forall t u t' u', t' = - t -> u' = - u -> lexZ t' u' = - lexZ t u.
+Proof. unfold lexZ. intros. subst. destruct (t =? 0) eqn:E1, (- t =? 0) eqn:E2; lia. Qed.
+Lemma lexZ_zero : forall t u, lexZ t u = 0 <-> t = 0 /\ u = 0.
+Proof. unfold lexZ. intros. destruct (t =? 0) eqn:E1; lia. Qed.
+
+
 (* ---------- byte strings ---------- *)
 Lemma bytes_cmp_range : forall a b, in_range (bytes_cmp a b).
 Proof.
@@ -281,6 +308,26 @@ Proof.
   pose proof (num_cmp_same_antisym a b Wa Wb). dif; lia.
 Qed.
 
+Lemma cplx_cmp_lex : forall a1 b1 c1 d1 a2 b2 c2 d2,
+  num_cmp_same (NCplx a1 b1 c1 d1) (NCplx a2 b2 c2 d2) =
+  lexZ (Qcmp_pair a1 b1 a2 b2) (Qcmp_pair c1 d1 c2 d2).
+Proof.
+  intros. cbn [num_cmp_same]. unfold Qeq_pair, Qcmp_pair, Zcmp, lexZ. dif; lia.
+Qed.
+
+Lemma Qcmp_pair_FTz : forall n1 d1 n2 d2 n3 d3,
+  (Z.gcd n1 (Zpos d1) =? 1) = true -> (Z.gcd n2 (Zpos d2) =? 1) = true ->
+  (Z.gcd n3 (Zpos d3) =? 1) = true ->
+  FTz (Qcmp_pair n1 d1 n2 d2) (Qcmp_pair n2 d2 n3 d3) (Qcmp_pair n1 d1 n3 d3).
+Proof.
+  intros n1 d1 n2 d2 n3 d3 G1 G2 G3. unfold FTz. rewrite <- !Qeq_pair_cmp.
+  repeat split; intros A B.
+  - eapply Qcmp_pair_lt_trans; eassumption.
+  - apply Qeq_pair_canon in A; try assumption. destruct A; subst. exact B.
+  - apply Qeq_pair_canon in A; try assumption. destruct A; subst. exact B.
+  - apply Qeq_pair_canon in B; try assumption. destruct B; subst. exact A.
+Qed.
+
 Lemma num_cmp_same_FT : forall a b c, num_wf a = true -> num_wf b = true -> num_wf c = true ->
   num_type_code a = num_type_code b -> num_type_code b = num_type_code c ->
   FT num_cmp_same a b c.
@@ -294,39 +341,8 @@ Proof.
     + apply Qeq_pair_canon in A; try assumption. destruct A; subst. exact B.
     + apply Qeq_pair_canon in B; try assumption. destruct B; subst. exact A.
   - (* NCplx *)
-    unfold FT. cbn [num_cmp_same].
-    pose proof (Qeq_pair_cmp rn rd rn0 rd0). pose proof (Qeq_pair_cmp imn imd imn0 imd0).
-    pose proof (Qeq_pair_cmp rn0 rd0 rn1 rd1). pose proof (Qeq_pair_cmp imn0 imd0 imn1 imd1).
-    pose proof (Qeq_pair_cmp rn rd rn1 rd1). pose proof (Qeq_pair_cmp imn imd imn1 imd1).
-    pose proof (Qcmp_pair_range rn rd rn0 rd0). pose proof (Qcmp_pair_range imn imd imn0 imd0).
-    pose proof (Qcmp_pair_range rn0 rd0 rn1 rd1). pose proof (Qcmp_pair_range imn0 imd0 imn1 imd1).
-    pose proof (Qcmp_pair_range rn rd rn1 rd1). pose proof (Qcmp_pair_range imn imd imn1 imd1).
-    pose proof (Qcmp_pair_lt_trans rn rd rn0 rd0 rn1 rd1).
-    pose proof (Qcmp_pair_lt_trans imn imd imn0 imd0 imn1 imd1).
-    unfold in_range in *.
-    destruct (Qeq_pair rn rd rn0 rd0) eqn:E1.
-    { apply Qeq_pair_canon in E1; try assumption. destruct E1; subst rn0 rd0.
-      destruct (Qeq_pair imn imd imn0 imd0) eqn:E2.
-      { apply Qeq_pair_canon in E2; try assumption. destruct E2; subst imn0 imd0.
-        repeat split; intros A B; try discriminate A; exact B. }
-      destruct (Qeq_pair rn rd rn1 rd1) eqn:E3.
-      { destruct (Qeq_pair imn0 imd0 imn1 imd1) eqn:E4.
-        { apply Qeq_pair_canon in E4; try assumption. destruct E4; subst imn1 imd1.
-          rewrite E2. repeat split; intros A B; try discriminate B; try exact A; dif; lia. }
-        destruct (Qeq_pair imn imd imn1 imd1) eqn:E5.
-        { apply Qeq_pair_canon in E5; try assumption. destruct E5; subst imn1 imd1.
-          pose proof (Qcmp_pair_antisym imn imd imn0 imd0).
-          repeat split; intros A B; dif; try lia. }
-        repeat split; intros A B; dif; try lia; intuition lia. }
-      repeat split; intros A B; dif; try lia. }
-    destruct (Qeq_pair rn0 rd0 rn1 rd1) eqn:E3.
-    { apply Qeq_pair_canon in E3; try assumption. destruct E3; subst rn1 rd1. rewrite E1.
-      repeat split; intros A B; dif; try lia. }
-    destruct (Qeq_pair rn rd rn1 rd1) eqn:E5.
-    { apply Qeq_pair_canon in E5; try assumption. destruct E5; subst rn1 rd1.
-      pose proof (Qcmp_pair_antisym rn rd rn0 rd0).
-      repeat split; intros A B; dif; try lia. }
-    repeat split; intros A B; dif; try lia; intuition lia.
+    rewrite FT_FTz. rewrite !cplx_cmp_lex.
+    apply FTz_lex; try apply Qcmp_pair_range; apply Qcmp_pair_FTz; assumption.
   - unfold FT. cbn [num_cmp_same]. dblkey.
     repeat split; intros A B; dif; lia.
   - unfold FT. cbn [num_cmp_same]. dblkey.
